@@ -566,7 +566,8 @@ func main() {
 		st := &stats{}
 		var stop atomic.Bool
 		var bg sync.WaitGroup
-		scrapes, reloads := 0, 0
+		scrapes := 0
+		var reloads atomic.Int64
 		// metrics scrapes run in every round (they read quota state)
 		bg.Add(1)
 		go func() {
@@ -580,21 +581,22 @@ func main() {
 				time.Sleep(2 * time.Millisecond)
 			}
 		}()
-		if noisy {
+		for adm := 0; noisy && adm < 2; adm++ {
+			// two administrators: admin requests run on their own goroutines and may overlap each other
 			bg.Add(1)
-			go func() {
+			go func(adm int) {
 				defer bg.Done()
 				payload := sim.Payload{Flows: map[string]string{"fprobe.yaml": sim.B64(probeFlow)}}.JSON()
-				for i := 0; !stop.Load(); i++ {
+				for i := adm; !stop.Load(); i++ {
 					if i%2 == 0 {
 						eng.Admin("POST", "/load_flows", nil)
 					} else {
 						eng.Admin("PUT", "/configuration", bytes.Clone(payload))
 					}
-					reloads++
-					time.Sleep(5 * time.Millisecond)
+					reloads.Add(1)
+					time.Sleep(time.Duration(5+2*adm) * time.Millisecond)
 				}
-			}()
+			}(adm)
 		}
 		var wg sync.WaitGroup
 		workers, per := 32, 40
@@ -638,7 +640,7 @@ func main() {
 		v.Count("rounds", 1)
 		v.Count("transactions", workers*per)
 		v.Count("metrics_scrapes", scrapes)
-		v.Count("reloads_during_rounds", reloads)
+		v.Count("reloads_during_rounds", int(reloads.Load()))
 		v.Count("lim_admitted", int(st.limAdmitted.Load()))
 		v.Count("lim_refused", int(st.limRefused.Load()))
 		v.Count("conc_admitted", int(st.concAdmitted.Load()))
@@ -650,7 +652,7 @@ func main() {
 		v.Count("expiring_quota_abandoned", int(st.expAbandoned.Load()))
 		note := fmt.Sprintf("round %d noisy=%v: lim %d/%d conc %d/%d (max in flight seen %d) queue %d/%d retries %d probes %d scrapes %d reloads %d",
 			round, noisy, st.limAdmitted.Load(), st.limRefused.Load(), st.concAdmitted.Load(), st.concRefused.Load(), st.concMax.Load(),
-			st.queueAllowed.Load(), st.queueBlock.Load(), st.retryAsked.Load(), st.probes.Load(), scrapes, reloads)
+			st.queueAllowed.Load(), st.queueBlock.Load(), st.retryAsked.Load(), st.probes.Load(), scrapes, reloads.Load())
 		if !noisy {
 			// conservation: fixed quota 25 per group on the child (2 groups), parent 40 per group
 			if adm := st.limAdmitted.Load(); adm > 50 {
